@@ -8,6 +8,15 @@ DescKeepsDidRows == FALSE      \* F8b (repaired in /repo COMMIT_F8b)
 DescBuildOnPending == TRUE     \* F8c
 DescUpdatesDeactivated == FALSE \* F8d (repaired in /repo COMMIT_F8d)
 
+\* configurations (enabled DID methods x naming of Create) explored by the model configurations
+Cfg(ms, nm) == [ms |-> ms, nm |-> nm]
+CfgBase == {Cfg({"web", "nuts"}, "given")}                      \* the default node, v2 API with a subject name
+CfgNew == {Cfg({"nuts"}, "given"), Cfg({"web"}, "given"),       \* didmethods: [nuts] / [web]
+           Cfg({"web", "nuts"}, "legacy"), Cfg({"nuts"}, "legacy"), Cfg({"web"}, "legacy"),   \* v1 API (NutsLegacyNamingOption)
+           Cfg({"web", "nuts"}, "generated")}                   \* v2 API without a subject name
+CfgAll == CfgBase \cup CfgNew
+CfgQuick == CfgBase \cup {Cfg({"nuts"}, "given"), Cfg({"web"}, "given"), Cfg({"web", "nuts"}, "legacy")}
+
 \* behaviour generation: print every complete behaviour as JSON (Hist = TRUE configurations only)
 Emit == (Terminal /\ Hist) => PrintT(ToJson(hist))
 \* generation: only the last two operations of a behaviour overlap (the earlier ones set up the subject sequentially)
